@@ -485,9 +485,11 @@ fn run(case: &Case, out: &mut Out) {
         .filter(|o| o.name == "probe")
         .map(|o| (o.args[0].b().to_vec(), o.args[1].b().to_vec(), o.args[2].b().to_vec()))
         .collect();
-    let regex_host_case = case.ops.iter().any(|o| (o.name == "add" || o.name == "del") && o.args[0].n() == 2 && o.args[1].b().contains(&b'/'));
-    let tag = if regex_host_case { "regexhost" } else { "plain" };
-
+    // Every violation seen after a /regex/-segment hostname went into the tree is reported under the one
+    // class `regex-host` (known finding: that feature is history dependent).
+    let regex_seen = std::cell::Cell::new(false);
+    let cls = |c: &'static str| -> &'static str { if regex_seen.get() { "regex-host" } else { c } };
+    let tagf = || if regex_seen.get() { "regexhost" } else { "plain" };
     let mut router = Router::new();
     let mut live: Vec<Front> = vec![];
     let mut dead = false;
@@ -516,6 +518,9 @@ fn run(case: &Case, out: &mut Out) {
                     }
                     Ok(Ok(())) => {
                         out.obs(&[ts("ok")]);
+                        if f.pos == 2 && f.host.contains(&b'/') {
+                            regex_seen.set(true);
+                        }
                         if is_add {
                             live.push(f.clone());
                         } else {
@@ -524,20 +529,25 @@ fn run(case: &Case, out: &mut Out) {
                     }
                     Ok(Err(e)) => {
                         out.obs(&[ts("err"), ts(err_name(&e))]);
-                        if is_add && matches!(e, RouterError::AddRoute(_)) && !live.iter().any(|x| x.same_identity(&f)) {
-                            out.viol("add-refused", &format!("tag={tag} add of {} refused although no identical frontend is configured", show_front(&f)));
+                        // hostnames the trie cannot store (empty label, unterminated /regex/) are refused by design
+                        let storable = !f.host.is_empty() && f.host[0] != b'.' && (f.pos != 2 || !f.host.contains(&b'/'));
+                        if is_add && storable && matches!(e, RouterError::AddRoute(_)) && !live.iter().any(|x| x.same_identity(&f)) {
+                            out.viol(cls("add-refused"), &format!("tag={} kind=add-refused add of {} refused although no identical frontend is configured", tagf(), show_front(&f)));
                         }
                     }
                 }
                 // a frontend that does not match a request never changes its route
                 for (i, (h, p, m)) in probes.iter().enumerate() {
-                    if !oracle.front_matches(&f, h, p, m) {
+                    if !h.is_empty() && h[0] != b'.' && !oracle.front_matches(&f, h, p, m) {
                         let after = do_lookup(&router, h, p, m);
                         if after != before[i] {
+                            // the frontend's host covers the request host, only its path/method do not match
+                            let shadow = f.pos == 2 && oracle.tree_host(&f.host, h).is_some();
                             out.viol(
-                                "unrelated-change",
+                                cls(if shadow { "unrelated-shadow" } else { "unrelated-change" }),
                                 &format!(
-                                    "tag={tag} {} of {} (does not match the request) changed the route of {} {} {}: {} -> {}",
+                                    "tag={} kind=unrelated {} of {} (does not match the request) changed the route of {} {} {}: {} -> {}",
+                                    tagf(),
                                     op.name, show_front(&f), show(m), show(h), show(p), show_dec(&before[i]), show_dec(&after)
                                 ),
                             );
@@ -557,9 +567,10 @@ fn run(case: &Case, out: &mut Out) {
                             let removed = got.is_some() && !live.iter().any(|f| Some(f.decision()) == got);
                             let class = if removed { "removed-routes" } else { "route-spec" };
                             out.viol(
-                                class,
+                                cls(class),
                                 &format!(
-                                    "tag={tag} {} {} {}: documented precedence on the live set gives {} ({}), lookup gives {}",
+                                    "tag={} kind={class} {} {} {}: documented precedence on the live set gives {} ({}), lookup gives {}",
+                                    tagf(),
                                     show(m), show(h), show(p), show_dec(&expd), exp.map(show_front).unwrap_or("-".into()), show_dec(&got)
                                 ),
                             );
@@ -607,9 +618,10 @@ fn run(case: &Case, out: &mut Out) {
                                 let cur = do_lookup(&router, h, p, m);
                                 if cur != ds[i] && oracle.spec_lookup(&live, h, p, m).is_ok() {
                                     out.viol(
-                                        "history-dependence",
+                                        cls("history-dependence"),
                                         &format!(
-                                            "tag={tag} {} {} {}: a router built from the {} live frontends alone gives {}, the router that went through the history gives {}",
+                                            "tag={} kind=history {} {} {}: a router built from the {} live frontends alone gives {}, the router that went through the history gives {}",
+                                            tagf(),
                                             show(m), show(h), show(p), live.len(), show_dec(&ds[i]), show_dec(&cur)
                                         ),
                                     );
@@ -626,9 +638,10 @@ fn run(case: &Case, out: &mut Out) {
                                 if r0[i] != ds[i] {
                                     let order: Vec<String> = perm.iter().map(|i| show_front(trees[*i])).collect();
                                     out.viol(
-                                        "order-dependence",
+                                        cls("order-dependence"),
                                         &format!(
-                                            "tag={tag} {} {} {}: the same {} tree frontends added in order [{}] give {}, in configuration order {}",
+                                            "tag={} kind=order {} {} {}: the same {} tree frontends added in order [{}] give {}, in configuration order {}",
+                                            tagf(),
                                             show(m), show(h), show(p), n, order.join(","), show_dec(&ds[i]), show_dec(&r0[i])
                                         ),
                                     );
